@@ -81,25 +81,54 @@ def check(repo, res, tier):
               "J^T J is the sum over observation rows of s^T s with s the weighted target-sensitivity block (symmetric PSD by construction)",
               "jtj is not the Gram matrix of the weighted sensitivities (%d cases), e.g. %s" % (len(bad), bad[0] if bad else ""), node=f.node)
     # jtj(theta): the Gram matrix of the integration at theta
+    # the public jtj(theta): the integration is asked for theta (with the sensitivities in its output) and the result is the Gram matrix
+    # of the weighted target sensitivities of *that* integration, without residual scaling - whatever helpers are used on the way
     fj = bl.methods["jtj"]
-    seen = {}
+    problems, n_j = [], 0
+    for sn, tp in ((["I"], None), (["R", "S"], ["c", "a"]), (["S", "I"], ["b"])):
+        for full in (False, True):
+            st_idx = [STATES.index(s_) for s_ in sn]
+            seen = {}
+            me = loss_self(sn, tp, None, n_t)
+            W = me.attrs["_weight"]
+            Dl = SymArr.symbols("DL", (n_t, len(sn)))
 
-    def jac(me_, theta=None, sens_output=False, full_output=False, method=None):
-        seen["args"] = (theta, full_output, method)
-        return (Tok("jac"), {"sens": Tok("SENS"), "diff_loss": Tok("DL"), "resid": Tok("resid")})
-    calls = []
-    summ2 = dict(summ)
-    summ2["Loss.jac"] = jac
-    summ2["Loss._sensToJTJWithoutIndex"] = lambda me_, sens, diffLoss=None: (calls.append((sens, diffLoss)), Tok("JTJ"))[1]
-    summ2["Loss._sensToGradWithoutIndex"] = lambda me_, sens, dl: Tok("GRAD")
-    me = loss_self(["I"], None, None)
-    try:
-        kind, out = Abs({}, types, summ2, me).run_function(fj.node, {"theta": Tok("theta"), "full_output": False, "method": Tok("m")})
-        ok = kind == "return" and out == Tok("JTJ") and calls == [(Tok("SENS"), None)] and seen.get("args") == (Tok("theta"), True, Tok("m"))
-        res.check(ok, "R-GRAM", fj, "jtj-of-integration", "jtj(theta) = Gram matrix of the sensitivities integrated at theta (no residual scaling)",
-                  "jtj(theta) returns %s from %s with integration arguments %s" % (out, calls, seen.get("args")), node=fj.node)
-    except A.Undecided as e:
-        res.undecided("R-GRAM", fj, "jtj-of-integration", str(e))
+            def jac(me_, theta=None, sens_output=False, full_output=False, method=None, _seen=seen, _Dl=Dl):
+                _seen["args"] = (theta, full_output, method)
+                return (Tok("jac"), {"sens": X.copy(), "diff_loss": _Dl.copy(), "resid": Tok("resid")})
+            summ2 = dict(summ)
+            summ2["Loss.jac"] = jac
+            p_idx = list(range(nP)) if tp is None else [PARAMS.index(p) for p in tp]
+            no = len(p_idx)
+            want = SymArr.zeros((no, no))
+            for o in range(no):
+                for o2 in range(no):
+                    t_ = A.Rat.const(0)
+                    for t in range(n_t):
+                        for s_ in range(len(sn)):
+                            t_ = t_ + (W.at((t, s_)) * X.at((t, nS + p_idx[o] * nS + st_idx[s_]))) * (W.at((t, s_)) * X.at((t, nS + p_idx[o2] * nS + st_idx[s_])))
+                    want[o, o2] = t_
+            try:
+                kind, out = Abs({}, types, summ2, me).run_function(fj.node, {"theta": Tok("theta"), "full_output": full, "method": Tok("m")})
+            except A.Undecided as e:
+                res.undecided("R-GRAM", fj, "jtj-of-integration", "outside the modelled subset: %s" % e)
+                problems = None
+                break
+            n_j += 1
+            got = out[0] if (full and isinstance(out, tuple) and out) else out
+            if kind != "return" or not isinstance(got, SymArr):
+                problems.append("observed %s, target_param %s, full_output=%s: jtj %s %s" % (sn, tp, full, kind, out))
+            else:
+                d = L.first_diff(got, want)
+                if d:
+                    problems.append("observed %s, target_param %s, full_output=%s: %s" % (sn, tp, full, d))
+                if seen.get("args") is None or seen["args"][0] != Tok("theta") or seen["args"][2] != Tok("m") or seen["args"][1] is not True:
+                    problems.append("the integration is asked for (theta, full_output, method) = %s, expected the caller's theta and method with the sensitivities in the output" % (seen.get("args"),))
+        if problems is None:
+            break
+    if problems is not None:
+        res.check(not problems, "R-GRAM", fj, "jtj-of-integration", "jtj(theta) = Gram matrix of the weighted target sensitivities integrated at theta (no residual scaling; %d calls)" % n_j,
+                  "; ".join(problems[:2]), node=fj.node)
 
     # ---------------------------------------------------------------- S2 R-TERMS
     _forwardforward(repo, res)
